@@ -5,11 +5,12 @@ HERE = os.path.dirname(os.path.abspath(__file__)); VERIF = os.path.dirname(HERE)
 sys.path.insert(0, HERE)
 props = [json.loads(l) for l in open(os.path.join(VERIF, 'properties.jsonl'))]
 na = json.load(open(os.path.join(VERIF, 'not_applicable.json'))) if os.path.exists(os.path.join(VERIF, 'not_applicable.json')) else {}
+ready = set(open(os.path.join(HERE, 'ready.txt')).read().split())
 checks, not_app = [], []
 for p in props:
     pid = p['id']
     path = os.path.join(HERE, 'props', pid.lower() + '.py')
-    if not os.path.exists(path):
+    if pid not in ready or not os.path.exists(path):
         not_app.append(dict(property_id=pid, reason=na.get(pid, 'check not built yet in this round (planned in DESIGN.md section 6); nothing is claimed for it')))
         continue
     m = importlib.import_module('props.' + pid.lower()).META
